@@ -36,6 +36,8 @@ type C10Req struct {
 	RHeader map[string][]string `json:"response_header,omitempty"`
 	RBody   string              `json:"response_body,omitempty"`
 	Multi   bool                `json:"multi_error,omitempty"`
+	Strict  bool                `json:"include_response_status,omitempty"`
+	ExclBody bool               `json:"exclude_bodies,omitempty"`
 }
 type C10Case struct {
 	Doc  map[string]any `json:"doc"`
@@ -127,7 +129,8 @@ func c10One(c *C10Case, phase func(string)) C10Obs {
 				continue
 			}
 			o.Routed++
-			opts := &openapi3filter.Options{MultiError: q.Multi, AuthenticationFunc: openapi3filter.NoopAuthenticationFunc}
+			opts := &openapi3filter.Options{MultiError: q.Multi, AuthenticationFunc: openapi3filter.NoopAuthenticationFunc,
+				IncludeResponseStatus: q.Strict, ExcludeRequestBody: q.ExclBody, ExcludeResponseBody: q.ExclBody}
 			in := &openapi3filter.RequestValidationInput{Request: req, PathParams: pp, Route: route, Options: opts}
 			var verr error
 			guard(&o, "validate-request", func() { verr = openapi3filter.ValidateRequest(context.Background(), in) })
@@ -257,6 +260,15 @@ func c10Random(r *Rng) C10Case {
 			} else {
 				p["content"] = jobj("application/json", jobj("schema", c10Schema(r, 1)))
 			}
+			if r.Chance(25) {
+				// a deepObject parameter whose members are arrays and nested objects
+				p = jobj("name", Pick(r, []string{"q", "id", "f", "a b"}), "in", "query", "style", "deepObject", "explode", true, "required", r.Chance(30),
+					"schema", jobj("type", "object", "properties", jobj(
+						"ids", jobj("type", "array", "items", jobj("type", "integer")),
+						"a", jobj("type", "object", "properties", jobj("b", jobj("type", "string"))),
+						"c", jobj("type", "array", "items", jobj()),
+						"v", jobj("type", "array", "items", jobj("type", "object", "properties", jobj("v", jobj("type", "integer")))))))
+			}
 			dup := false
 			for _, e := range params {
 				if e.(map[string]any)["name"] == p["name"] && e.(map[string]any)["in"] == p["in"] {
@@ -345,7 +357,10 @@ func c10Random(r *Rng) C10Case {
 		if r.Chance(12) {
 			// one key both as a scalar and as a nested object (deepObject parameters)
 			n := Pick(r, []string{"q", "id", "f", "a b"})
-			target += "?" + n + "[a]=1&" + n + "[a][b]=2&" + n + "[c][0]=x&" + n + "[c]=y"
+			target += "?" + Pick(r, []string{
+				n + "[a]=1&" + n + "[a][b]=2&" + n + "[c][0]=x&" + n + "[c]=y",
+				n + "[ids][-1]=3&" + n + "[ids][0]=1", n + "[ids][5]=3", n + "[ids][99999999999999999999]=1", n + "[ids][x]=1&" + n + "[ids][1]=2",
+				n + "[]=1", n + "[=1", n + "][=1", n + "[a][]=1&" + n + "[a][][b]=2", n + "[v][0][v]=1&" + n + "[v][1]=2"})
 		} else if r.Chance(70) {
 			var qs []string
 			for k := 0; k < r.Intn(4); k++ {
@@ -359,7 +374,7 @@ func c10Random(r *Rng) C10Case {
 		}
 		q := C10Req{Method: method,
 			Target: target, Body: Pick(r, bodies), Status: Pick(r, []int{200, 201, 204, 299, 301, 304, 400, 404, 500, 599, 600, 0, -1, 99, 1000}),
-			RBody: Pick(r, bodies), Multi: r.Bool(), Header: map[string][]string{}, RHeader: map[string][]string{}}
+			RBody: Pick(r, bodies), Multi: r.Bool(), Strict: r.Chance(40), ExclBody: r.Chance(10), Header: map[string][]string{}, RHeader: map[string][]string{}}
 		if ct := Pick(r, cts); ct != "" {
 			q.Header["Content-Type"] = []string{ct}
 		}
